@@ -308,5 +308,14 @@ def quadVar (n ncell : Nat) (g0 g2 : Array K) (u : Array K) : Array K :=
 def quadVarDiff (n ncell : Nat) (g2 : Array K) (u : Array K) : Array K :=
   tab n fun i => ((2:Nat) : K) * get g2 (i / ncell) * get u i
 
+/-- the closure for the field-dependent variance family `g0 + g2*u²` (one coefficient pair per component) on a grid
+with cell volumes `vol`; `n = state.data.size`.  The driver builds every `quad` case through this definition. -/
+def quadSys (sqrt : K → K) (dt : K) (interp : Interp) (n : Nat) (vol g0 g2 : Array K)
+    (rate : Nat → Array K → Array K) (real : Option (Array K → Array K))
+    (maxiter : Nat) (maxerr2 : K) : Sys K :=
+  { n := n, ncell := vol.size, dt := dt, s := sqrt dt, interp := interp, inv := invCell vol,
+    rate := rate, var := quadVar n vol.size g0 g2, varDiff := quadVarDiff n vol.size g2,
+    real := real, sqrt := sqrt, maxiter := maxiter, maxerr2 := maxerr2 }
+
 end
 end PdeVerif.Noise
